@@ -59,10 +59,20 @@ thread_local! {
     /// the shim itself consumes the iterator it is handed with `for_each` — a target that buffers
     /// the pixels before transmitting them — and hands the buffer on.
     static FOLD_MODE: std::cell::Cell<bool> = std::cell::Cell::new(false);
+    /// `fill_contiguous` calls seen by shims in fold mode during this run (selects the consumption style)
+    static SHIM_FILLS: std::cell::Cell<u64> = std::cell::Cell::new(0);
+    static COLOUR_FOLD: std::cell::Cell<bool> = std::cell::Cell::new(true);
 }
 
 pub fn set_fold_mode(on: bool) {
     FOLD_MODE.with(|f| f.set(on));
+    SHIM_FILLS.with(|f| f.set(0));
+    COLOUR_FOLD.with(|f| f.set(true));
+}
+
+/// Switched off by a workload around an operation whose colour stream it knows to be endless.
+pub fn set_colour_fold(on: bool) {
+    COLOUR_FOLD.with(|f| f.set(on));
 }
 
 impl<C: SimColor> DrawTarget for DynTarget<'_, C> {
@@ -75,7 +85,10 @@ impl<C: SimColor> DrawTarget for DynTarget<'_, C> {
     {
         if FOLD_MODE.with(|f| f.get()) {
             let mut buf: Vec<Pixel<C>> = Vec::new();
-            pixels.into_iter().for_each(|p| buf.push(p));
+            let it = pixels.into_iter();
+            let hint = it.size_hint();
+            it.for_each(|p| buf.push(p));
+            crate::dev::note_hint("pixel stream passed to draw_iter", hint, buf.len() as u64, Some(buf.len() as u64));
             self.inner.e_draw_iter(&mut buf.into_iter())
         } else {
             self.inner.e_draw_iter(&mut pixels.into_iter())
@@ -85,6 +98,45 @@ impl<C: SimColor> DrawTarget for DynTarget<'_, C> {
     where
         I: IntoIterator<Item = C>,
     {
+        if FOLD_MODE.with(|f| f.get()) && COLOUR_FOLD.with(|f| f.get()) {
+            let call = SHIM_FILLS.with(|f| f.replace(f.get() + 1));
+            if call % 2 == 0 {
+                // Mixed consumption (every other call): the first k colours are pulled with `next`,
+                // the rest by internal iteration, into a buffer that is handed on. A stream that does
+                // not end makes the run inconclusive (dev::abort_unbounded), never a violation here.
+                let mut it = colors.into_iter();
+                let hint = it.size_hint();
+                let w = area.size.width as u64;
+                let n = w * area.size.height as u64;
+                let k = match (call / 2) % 4 {
+                    0 => 1,
+                    1 => w,
+                    2 => 0,
+                    _ => 2 * w,
+                };
+                let mut buf: Vec<C> = Vec::new();
+                let mut ended = false;
+                while (buf.len() as u64) < k {
+                    match it.next() {
+                        Some(c) => buf.push(c),
+                        None => {
+                            ended = true;
+                            break;
+                        }
+                    }
+                }
+                if !ended {
+                    it.for_each(|c| {
+                        if buf.len() as u64 > n + crate::dev::UNBOUNDED_LIMIT {
+                            crate::dev::abort_unbounded();
+                        }
+                        buf.push(c)
+                    });
+                }
+                crate::dev::note_hint("colour stream passed to fill_contiguous", hint, buf.len() as u64, Some(buf.len() as u64));
+                return self.inner.e_fill_contiguous(area, &mut buf.into_iter());
+            }
+        }
         self.inner.e_fill_contiguous(area, &mut colors.into_iter())
     }
     fn fill_solid(&mut self, area: &Rectangle, color: C) -> Result<(), SimError> {
